@@ -1,4 +1,4 @@
-import PeptVerif.Lemmas.ParserChain
+import PeptVerif.Lemmas.ParserSurface
 /-!
 # C01 — ProForma text ⇄ annotation are faithful inverses (property theorems)
 
@@ -132,6 +132,47 @@ theorem parse_serialize_include_plus (b : Bool) (a : Annotation) (hc : canon a =
 def exampleMixed : Annotation := { seq := "PEP".toList, internal := some [(1, [⟨.int 5, 1⟩, ⟨.int 5, 2⟩])] }
 
 example : serialize (fun m => decide (m.mult = 1)) exampleMixed = "PE[+5][5]^2P".toList := by decide +kernel
+
+/-- **The notation denotes the same object whatever the order of the leading sections.** The text may carry the labile
+`{…}`, global `<…>` (static rules and isotope labels interleaved inside a run), unknown-position `[…]?` and N-terminal
+`[…]-` sections in ANY order and any number of times (the serializer only ever writes one fixed order); the parser
+accumulates them in order of appearance (`surfaceDenote`). Middle and end sections are those of any canonical `b`. -/
+theorem parse_any_section_order (plus : Plus) (items : List StartItem) (hok : ∀ it ∈ items, it.ok = true)
+    (hadj : noAdjacentGlobals items = true) (b : Annotation) (hb : canon b = true) :
+    parse true (surfaceText plus items b) = .ok (.single (surfaceDenote items b)) := by
+  have hne : b.seq ≠ [] := by
+    simp only [canon, Bool.and_eq_true, Bool.not_eq_eq_eq_not, Bool.not_true] at hb
+    intro h; rw [h] at hb; simp at hb
+  have hchain := parseChains_surface plus items hok hadj b hb none [] (Or.inl rfl)
+  simp only [List.append_nil, stopConn, stopRest] at hchain
+  have hnil : parseChains true none [] = .ok [] := by rw [parseChains.eq_def]
+  rw [hnil] at hchain
+  have htne : surfaceText plus items b ≠ [] := by
+    unfold surfaceText
+    have := serializeMiddle_ne_nil plus b hne
+    intro h; simp at h; exact this h.2.1
+  unfold parse
+  split
+  · rename_i hun
+    have := parseChains_allAA none (surfaceText plus items b) hun htne
+    rw [hchain] at this
+    simp only [Except.ok.injEq, List.cons.injEq, Prod.mk.injEq, and_true] at this
+    rw [← this]
+  · rw [hchain]
+
+/-- non-vacuity: N-terminal section first, then a `<…>` run mixing an isotope label and a static rule, a labile group,
+an unknown-position group and a second N-terminal section -/
+def exampleItems : List StartItem :=
+  [.nterm [⟨.int 2, 1⟩], .globals [⟨.str "13C".toList, 1⟩, ⟨.str "[+57.02]@C".toList, 1⟩],
+   .labile ⟨.str "Glycan:Hex".toList, 2⟩, .unknown [⟨.flt "1.5".toList, 1⟩], .nterm [⟨.int 7, 3⟩]]
+
+example : (exampleItems.all StartItem.ok && noAdjacentGlobals exampleItems) = true := by decide +kernel
+example : surfaceText (constPlus true) exampleItems { seq := "PEP".toList, charge := some 2 } =
+    "[+2]-<13C><[+57.02]@C>{Glycan:Hex}^2[+1.5]?[+7]^3-PEP/2".toList := by decide +kernel
+example : surfaceDenote exampleItems { seq := "PEP".toList, charge := some 2 } =
+    { seq := "PEP".toList, charge := some 2, nterm := some [⟨.int 2, 1⟩, ⟨.int 7, 3⟩],
+      isotope := some [⟨.str "13C".toList, 1⟩], static := some [⟨.str "[+57.02]@C".toList, 1⟩],
+      labile := some [⟨.str "Glycan:Hex".toList, 2⟩], unknown := some [⟨.flt "1.5".toList, 1⟩] } := by decide +kernel
 
 /-- **Serializing is a fixpoint after one round trip** (corollary): `serialize(parse(serialize(a))) == serialize(a)`. -/
 theorem serialize_fixpoint (plus : Plus) (a : Annotation) (hc : canon a = true) :
